@@ -1010,6 +1010,10 @@ func (f *framer) parsePreparedMetadata() preparedMetadata {
 	}
 
 	if meta.flags&flagNoMetaData == flagNoMetaData {
+		if meta.colCount > 0 {
+			// values can only be bound to bind markers whose types are known
+			panic(fmt.Errorf("received prepared metadata that announces %d bind markers without describing them", meta.colCount))
+		}
 		return meta
 	}
 
